@@ -485,6 +485,21 @@ func genFloat64Bits(r *gen.RNG) uint64 {
 	case 5: // decimal-looking values
 		f := float64(r.Intn(1000000)) * math.Pow(10, float64(r.Range(-330, 300)))
 		return math.Float64bits(f)
+	case 7: // result-driven: the float nearest to T*10^e for a coefficient T next to an internal threshold of the
+		// result path (its decimal expansion then starts with T's digits to 16 places)
+		T := r.ThresholdFull()
+		e := r.Range(-340, 270)
+		var q *big.Rat
+		if e >= 0 {
+			q = new(big.Rat).SetInt(new(big.Int).Mul(T, ref.Pow10(e)))
+		} else {
+			q = new(big.Rat).SetFrac(T, ref.Pow10(-e))
+		}
+		f, _ := q.Float64()
+		if math.IsInf(f, 0) || f == 0 {
+			f = 1
+		}
+		return math.Float64bits(f) | (r.U64() & (1 << 63))
 	case 6: // mantissa all ones / few bits
 		e := uint64(r.Range(0, 2046))
 		m := uint64(0x000f_ffff_ffff_ffff)
